@@ -77,6 +77,7 @@ func (s *Server) Initialize(ctx context.Context, params *protocol.InitializePara
 
 	if s.rootURI != "" {
 		s.workspace = workspace.NewWorkspace(s.rootURI, s.loader)
+		s.workspace.SetOverlay(s.openDocumentByPath)
 	}
 
 	settings := s.getSettings()
@@ -444,6 +445,22 @@ func uriToPath(docURI protocol.DocumentURI) string {
 		path = s[7:]
 	}
 	return filepath.Clean(path)
+}
+
+// openDocumentByPath returns the current text of the open document stored
+// under the given file path, if any.
+func (s *Server) openDocumentByPath(path string) (string, bool) {
+	var content string
+	found := false
+	s.documents.Range(func(key, value any) bool {
+		docURI, ok := key.(protocol.DocumentURI)
+		if !ok || uriToPath(docURI) != path {
+			return true
+		}
+		content, found = value.(string)
+		return false
+	})
+	return content, found
 }
 
 func (s *Server) GetResolved(docURI protocol.DocumentURI) *include.ResolvedJournal {
